@@ -1,4 +1,5 @@
 import OdcGeo.Model.C13
+import OdcGeo.Model.C12
 namespace OdcGeo.C13.Drv
 open OdcGeo OdcGeo.IO OdcGeo.C13
 
@@ -143,6 +144,23 @@ def run (args : List String) : Option String :=
     match r with
     | some img => pure (fmtImg h w img)
     | none => pure ErrKind.indexError.toStr
+  | ["lindeps", S, D, sh, sw, dh, dw, sy, sx, cy, cx, ttol, stol, tol, sttol] => do
+    -- `GeoboxTiles(d_gbox, (cy, cx)).grid_intersect(GeoboxTiles(s_gbox, (sy, sx)))` on the linear path,
+    -- through the C12 model of `_check_linear` (with `snap_affine`) and `_grid_intersect_linear`
+    let S ← parseAff? S; let D ← parseAff? D
+    let sh ← parseInt? sh; let sw ← parseInt? sw; let dh ← parseInt? dh; let dw ← parseInt? dw
+    let sy ← parseList? parseInt? sy; let sx ← parseList? parseInt? sx
+    let cy ← parseInt? cy; let cx ← parseInt? cx
+    let ttol ← parseRat? ttol; let stol ← parseRat? stol; let tol ← parseRat? tol; let sttol ← parseRat? sttol
+    let src : C12.GBT := ⟨sh, sw, ⟨.var sy, .var sx⟩⟩
+    let dst : C12.GBT := ⟨dh, dw, ⟨.reg dh cy, .reg dw cx⟩⟩
+    match C12.checkLinear S D ttol stol tol sttol with
+    | .error e => pure e.toStr
+    | .ok none => pure "general"
+    | .ok (some A) =>
+      pure (fmtRes (fun g => if g.isEmpty then "-" else "|".intercalate (g.map fun e =>
+        s!"{e.1.1}.{e.1.2}=" ++ "+".intercalate (e.2.map fun i => s!"{i.1}.{i.2}")))
+        (C12.gridIntersectLinear dst src A))
   | "warp" :: rest => do
     -- `_rio_reproject` on a caller buffer (no NaN default); chunk fields unused
     let x ← parseCommon? rest
